@@ -37,7 +37,7 @@ import numpy as np
 from .. import domain as D
 from .. import observe as O
 from .. import pipeline as P
-from ..core import Acc, h64, vacuity
+from ..core import h64, vacuity
 
 LEVEL = 'model_checking'
 RULE = ('full cartesian product: (M) every sparsity mask of every shape of the tier, metadata on both '
@@ -182,7 +182,7 @@ _CACHE = {}
 
 
 def spec_of(case):
-    return {k: v for k, v in case.items() if k not in ('axis', 'req', 'unknown')}
+    return {k: v for k, v in case.items() if k not in ('axis', 'req', 'unknown', 'hashseed')}
 
 
 def artefacts(case, acc, tmp):
@@ -542,6 +542,69 @@ class _NotJson(Exception):
         self.text = text
 
 
+# ------------------------------------------------------------------------- worker-death watchdog
+FATAL_SIGNALS = {4: 'SIGILL', 6: 'SIGABRT', 7: 'SIGBUS', 8: 'SIGFPE', 9: 'SIGKILL', 11: 'SIGSEGV'}
+
+
+def guarded_run_cases(run, cases, check, nchunks=None):
+    """P.run_cases plus a watchdog.  A library defect that corrupts a sparse matrix can take a
+    worker down with SIGSEGV inside scipy (seen with an off-by-one in the indptr extraction of
+    from_hdf5); multiprocessing.Pool then loses the task and Run.pmap would wait for ever.
+    Every worker notes the case it is about to run in a per-pid file; a thread of the parent
+    watches the pool's processes, and when one is killed by a fatal signal the enumeration is
+    aborted (KeyboardInterrupt into the main thread, which makes Pool terminate), the run is
+    marked not exhaustive and the noted case is reported as `worker-killed:<signal>`."""
+    import _thread
+    import multiprocessing as mp
+    import shutil
+    import tempfile
+    import threading
+    watch = tempfile.mkdtemp(prefix='verif-watch-')
+    dead = []
+    stop = threading.Event()
+
+    def noted(case, acc, tmp):
+        with open(os.path.join(watch, str(os.getpid())), 'w') as fh:
+            json.dump(case, fh)
+        check(case, acc, tmp)
+
+    def dog():
+        seen = {}
+        while not stop.wait(0.25):
+            for p in mp.active_children():
+                seen[p.pid] = p
+            for pid, p in seen.items():
+                code = p.exitcode
+                if code is not None and -code in FATAL_SIGNALS:
+                    dead.append((pid, -code))
+                    _thread.interrupt_main()
+                    return
+    th = threading.Thread(target=dog, daemon=True)
+    th.start()
+    try:
+        try:
+            P.run_cases(run, cases, noted, nchunks=nchunks)
+        finally:
+            stop.set()
+    except KeyboardInterrupt:
+        if not dead:
+            raise
+        pid, signo = dead[0]
+        try:
+            with open(os.path.join(watch, str(pid))) as fh:
+                case = json.load(fh)
+        except Exception:
+            case = {'note': 'case of the dead worker unknown'}
+        run.acc.violation('worker-killed:%s' % FATAL_SIGNALS[signo], 'a worker process was killed by %s '
+                          'while running this case (library or one of its compiled dependencies crashed); '
+                          'the enumeration was aborted' % FATAL_SIGNALS[signo], case)
+        run.cap('worker killed by %s: enumeration aborted' % FATAL_SIGNALS[signo])
+    finally:
+        th.join(2)
+        shutil.rmtree(watch, ignore_errors=True)
+    return not dead
+
+
 # ------------------------------------------------------------------------- run / replay
 CLAUSES = ['clause:equals-load-then-filter:' + v for v in 'ABCDE'] + \
           ['clause:unknown-id-refused:' + v for v in 'ABDE'] + \
@@ -551,16 +614,65 @@ CLAUSES = ['clause:equals-load-then-filter:' + v for v in 'ABCDE'] + \
            'axis:observation', 'axis:sample'] + ['ser:' + n for n, _, _ in SERS]
 
 
+HASH_SEEDS_THOROUGH = [1, 2]          # in addition to the wrapper's own PYTHONHASHSEED (0)
+
+
+def other_hash_seeds(run):
+    """thorough tier: the whole enumeration again in child interpreters started with another
+    PYTHONHASHSEED (the subset paths build Python sets of ids); the child pickles its
+    accumulator, the parent merges it.  Cases carry the hash seed so that a replay names it."""
+    import tempfile
+    done = []
+    for hs in HASH_SEEDS_THOROUGH:
+        fd, out = tempfile.mkstemp(prefix='verif-c14-hs%d-' % hs, suffix='.pickle')
+        os.close(fd)
+        env = dict(os.environ)
+        env['PYTHONHASHSEED'] = str(hs)
+        try:
+            r = subprocess.run([sys.executable, '-W', 'ignore', '-m', 'mc.props.c14', 'child', run.tier,
+                                str(run.seed), str(hs), out], env=env, capture_output=True, text=True)
+            if r.returncode != 0 or not os.path.getsize(out):
+                run.acc.violation('HARNESS-ERROR', 'hash-seed child %d failed (rc=%d): %s'
+                                  % (hs, r.returncode, (r.stdout + r.stderr)[-1500:]), {'hashseed': hs})
+                continue
+            with open(out, 'rb') as fh:
+                acc, complete, caps = pickle.load(fh)
+            run.acc.merge(acc)
+            for c in caps:
+                run.cap('hash seed %d: %s' % (hs, c))
+            if complete:
+                done.append(hs)
+        finally:
+            os.unlink(out)
+    return done
+
+
+def _child(argv):
+    from ..core import Run
+    tier, seed, hs, out = argv[0], int(argv[1]), int(argv[2]), argv[3]
+    assert os.environ.get('PYTHONHASHSEED') == str(hs)
+    run = Run('C14', tier, seed, LEVEL, RULE)
+    cs = cases(tier, seed)
+    for c in cs:
+        c['hashseed'] = hs
+    complete = guarded_run_cases(run, cs, check, nchunks=256)
+    with open(out, 'wb') as fh:
+        pickle.dump((run.acc, complete, run.caps), fh)
+
+
 def run(run):
     cs = cases(run.tier, run.seed)
-    P.run_cases(run, cs, check, nchunks=256)
-    need = list(CLAUSES)
-    for v in 'ABCDE':
+    complete = guarded_run_cases(run, cs, check, nchunks=256)
+    hash_seeds = [int(os.environ.get('PYTHONHASHSEED', '0') or 0)]
+    if run.tier == 'thorough' and complete:
+        hash_seeds += other_hash_seeds(run)
+    need = list(CLAUSES) if complete else []
+    for v in ('ABCDE' if complete else ''):
         # "a table was actually compared and found equal" is demanded unless that variant is
         # already failing (then the run exits 1 anyway)
         if not any(s.startswith(v + ':') for s in run.acc.viol):
             need.append('compared:' + v)
-    if not any(s.startswith('D:') for s in run.acc.viol):
+    if complete and not any(s.startswith('D:') for s in run.acc.viol):
         need.append('compared:D-all-8-identical')
     vacuity(run, need)
     specs = table_specs(run.tier, run.seed)
@@ -580,8 +692,8 @@ def run(run):
         'json_spellings': [n for n, _, _ in SERS],
         'unknown_id_requests': 'per subset: unknown id appended, prepended; plus the unknown id alone '
                                '(A, B x 2, D x 9, E)',
-        'hash_seeds': [int(os.environ.get('PYTHONHASHSEED', '0') or 0)],
-        'cases': len(cs),
+        'hash_seeds': hash_seeds,
+        'cases_per_hash_seed': len(cs),
     }
     run.assumptions += ['the whole-file load (Table.from_hdf5 / parse_table without ids) is the reference '
                         'the property names; the filter and the empty-vector drop are done on a dense '
@@ -592,4 +704,21 @@ def run(run):
 
 
 def replay(case):
+    hs = case.get('hashseed')
+    if hs is not None and os.environ.get('PYTHONHASHSEED') != str(hs):
+        # recorded under another hash seed: re-execute in an interpreter started with it
+        env = dict(os.environ)
+        env['PYTHONHASHSEED'] = str(hs)
+        r = subprocess.run([sys.executable, '-W', 'ignore', '-m', 'mc.props.c14', 'replay-child',
+                            json.dumps(case)], env=env, capture_output=True, text=True)
+        if r.returncode != 0:
+            return [('HARNESS-ERROR', 'replay child failed: ' + (r.stdout + r.stderr)[-800:])]
+        return [tuple(x) for x in json.loads(r.stdout.strip().splitlines()[-1])]
     return P.replay_case(check, case)
+
+
+if __name__ == '__main__':
+    if len(sys.argv) >= 6 and sys.argv[1] == 'child':
+        _child(sys.argv[2:])
+    elif len(sys.argv) == 3 and sys.argv[1] == 'replay-child':
+        print(json.dumps(P.replay_case(check, json.loads(sys.argv[2]))))
